@@ -1,3 +1,30 @@
+# C09 - remote delivery verdicts: qmail-remote.c smtpcode()/smtp()/quit()/dropped() and qmail-rspawn.c report().
+#
+# Composition: smtp_dialogue proves which reports smtp() writes and WHEN it calls dropped()/blast(); dropped_quit proves
+# what dropped()/quit() write; smtpcode proves the reply reader on arbitrary bytes; C06 proves blast(); rspawn_report
+# proves what qmail-rspawn relays to qmail-send for whatever qmail-remote wrote / however it ended.
+#
+# kills (hand-made mutants of /repo in a scratch worktree; each reported as VIOLATION with a native replay, rc 1):
+#   qmail-remote.c smtp():   RCPT `code >= 500` -> `> 500`                         smtp_dialogue (recipient report class)
+#                            'h' and 's' swapped                                   smtp_dialogue (recipient report class)
+#                            `flagcritical = 0` moved before the final smtpcode()  smtp_dialogue (flagcritical iff dot sent)
+#                            final `if (code >= 400) quit("Z"...)` removed         smtp_dialogue (message report by class)
+#                            greeting `!= 220` -> `>= 400`                         smtp_dialogue (blast only after ...)
+#                            `if (!flagbother) quit("DGiving up...")` removed      smtp_dialogue (blast only after ...)
+#                            RCPT commands sent in reverse argument order (NR=2)   smtp_dialogue (report per recipient)
+#   qmail-remote.c dropped(): `if (flagcritical)` -> `if (!flagcritical)`          dropped_quit (both modes)
+#   qmail-remote.c outsmtptext(): NUL -> '?' replacement removed                   dropped_quit MODE1 + smtp_dialogue (forged record)
+#   qmail-remote.c smtpcode(): one get() less after a continuation line            smtpcode (truncated reply returned as a code)
+#                            third digit `code * 10` -> `code * 8`                 smtpcode (returned code)
+#   timeoutread.h GEN_SAFE_TIMEOUTREAD: EOF (r == 0) no longer calls dropped()     smtpcode (saferead returned without a byte)
+#   qmail-rspawn.c report(): crash text "Z..." -> "D..."                           rspawn_report (crash => Z)
+#                            `case 's': orr = 0` dropped                           rspawn_report (refused recipient relayed as K)
+#                            `if (s[j] == 'Z') { result = 0; break; }` dropped     rspawn_report (first complete message report)
+#                            exit 111 text "Z..." -> "D..."                        rspawn_report (111 => Z)
+#                            pre-fix tree 356f27c (substdio_puts(ss,s+k+1))        rspawn_report L>=3: strlen beyond s[len..],
+#                                                                                  ASan heap-buffer-overflow on "h\0K" (fixed: b374315)
+#   NOT killed, by design:   report() `if (result <= orr)` guard dropped - changes only the explanatory text appended to a
+#                            Z/D report (the K line's text), never the verdict letter; the property is about the verdict.
 from vlib import Obl, Prog
 
 
@@ -5,8 +32,8 @@ STRALLOC = ["stralloc_opys.c", "stralloc_opyb.c", "stralloc_pend.c", "stralloc_c
 
 
 def obligations(tier):
-    report_ls = list(range(0, 9))
-    code_ns = [12] if tier == "quick" else [12, 14]
+    report_ls = list(range(0, 9)) if tier == "quick" else list(range(0, 11))
+    code_ns = [12] if tier == "quick" else [12, 14, 16, 18]
     nrs = [1, 2] if tier == "quick" else [1, 2, 3]
     return [
         Obl("smtpcode", "smtpcode.c",
@@ -20,7 +47,7 @@ def obligations(tier):
             # bound; the unwinding assertion proves it
             unwind=lambda p: {"substdio_put": 40, "substdio_get": 2, "ref_reply": p["N"] + 1,
                               "smtpcode~for (;;)": p["N"] // 5 + 2},
-            backend="cadical", timeout=900,
+            backend="cadical", timeout=900 if tier == "quick" else 2400,   # measured: N=12 25-35 s, 16: 112 s, 18: 197 s
             functions=["qmail-remote.c:smtpcode", "qmail-remote.c:get", "qmail-remote.c:saferead", "stralloc_opys.c", "stralloc_pend.c"],
             cuts=["dropped -> observing stub that ends the run (what dropped() reports: obligation dropped_quit)"],
             stubs=["timeoutread: delivers the symbolic stream one byte per call, then 0 (EOF) or -1 (error/timeout), symbolic",
@@ -44,7 +71,7 @@ def obligations(tier):
             unwind=lambda p: {"substdio_put": 40, "substdio_get": 2, "smtpcode~for (;;)": 3, "smtpcode~while (ch": 3,
                               "smtp": p["NR"] + 1, "check_rcpt_reports": p["NR"] + 1, "ref_walk": p["NR"] + 1,
                               "vmain": p["NR"] + 6, "server_command": p["NR"] + 1},
-            backend="cadical", timeout=1500,
+            backend="cadical", timeout=1500,      # measured under load: NR=1 100-120 s, NR=2 150-175 s, NR=3 246 s (minisat: 2-3x slower)
             functions=["qmail-remote.c:smtp", "qmail-remote.c:smtpcode", "qmail-remote.c:get", "qmail-remote.c:saferead",
                        "qmail-remote.c:quit", "qmail-remote.c:outsmtptext", "qmail-remote.c:out",
                        "qmail-remote.c:zero", "qmail-remote.c:zerodie"],
@@ -53,13 +80,13 @@ def obligations(tier):
                   "dropped -> observing stub (when it is called, flagcritical, reports so far); its own report: obligation dropped_quit",
                   "outhost -> prints a fixed marker (formats the peer IP address; no verdict depends on it)"],
             stubs=["timeoutread: scripted server (per phase symbolic code 000-999, optional continuation line, one symbolic "
-                   "text byte (CR => CRLF line end), one disconnect at any byte offset of any phase, EOF or error)",
+                   "text byte (CR => CRLF line end), one disconnect at any byte offset of any phase, EOF or error; one failing "
+                   "write of a command HELO..DATA)",
                    "substdio: ideal streams; reads go through the real saferead(); the server sees a command when smtpto is flushed",
                    "stralloc_ready/readyplus: arena; _exit: evaluates the oracle, ends the path"],
-            assumes=["replies follow the template (well-formed, <= 2 lines, 1 text byte); writes of commands do not fail (write failure "
-                     "only inside the blast contract)"],
+            assumes=["replies follow the template (well-formed, <= 2 lines, 1 text byte); at most one failing command write and one cut reply"],
             outside=["more than %d recipients" % max(nrs), "malformed replies (smtpcode obligation covers the reader on arbitrary bytes)",
-                     "failing write of a command or of QUIT", "DNS/MX selection, connect, tcpto"],
+                     "failing write of QUIT (dropped_quit covers it)", "DNS/MX selection, connect, tcpto"],
             claim="for every script: recipient i reported r/h/s by the class of the reply to its RCPT, in argument order; exactly one "
                   "message report: K iff some r and DATA<400 and final<400, D/Z by class at MAIL/DATA/final, Z for greeting!=220, "
                   "HELO!=250; any disconnect calls dropped() at a record boundary with flagcritical set iff the dot was sent; "
@@ -67,7 +94,7 @@ def obligations(tier):
             expect_witnesses=lambda p: ["delivered", "delivered_multiline_nul_text", "delivered_crlf", "no_recipient_accepted", "refused_after_dot_5xx",
                                         "deferred_after_dot_4xx", "data_5xx", "mail_5xx", "bad_greeting", "bad_helo",
                                         "lost_inside_final_reply", "lost_while_sending_dot", "lost_while_sending_message",
-                                        "lost_before_greeting", "lost_at_last_rcpt", "timeout_at_data"]
+                                        "lost_before_greeting", "lost_at_last_rcpt", "timeout_at_data", "lost_writing_last_rcpt"]
             + (["delivered_h_then_r", "delivered_r_then_s"] if p["NR"] >= 2 else [])),
         Obl("dropped_quit", "dropped.c",
             progs=[Prog("qmail-remote.c", nomain=True)],
@@ -101,7 +128,7 @@ def obligations(tier):
             stubs=["substdio_put/puts: ideal byte stream (lib/ideal_substdio.c)",
                    "strlen: plain byte loop in the harness (bounded by 40), so that an over-read fails at the first byte outside the object"],
             assumes=["wait status = signal 1..126 (+core flag) or exit code 0..255; qmail-remote output exactly L bytes, every byte value, NULs anywhere"],
-            outside=["outputs longer than 8 bytes", "spawn.c's truncreport shortening (not enabled by qmail-rspawn)"],
+            outside=["outputs longer than %d bytes" % max(report_ls), "spawn.c's truncreport shortening (not enabled by qmail-rspawn)"],
             claim="for every wait status and every output of L bytes: K is relayed only for exit 0, no crash, first report not h/s and first "
                   "complete message report K; crash/111 => Z, 100 => D, s => Z, h => D; exactly one verdict letter, no NUL in the text; "
                   "no read beyond s[len-1] (heap object of exactly len bytes)",
